@@ -214,6 +214,12 @@ def results(tier):
     with cf.ThreadPoolExecutor(max_workers=int(os.environ.get('VERIF_JOBS', '12'))) as ex:
         for job, rc, failed, other in ex.map(compile_tu, jobs):
             res[job] = (rc, failed, other)
+    # a unit on which the compiler died (bus error / out of memory while a dozen large units were in flight) is compiled again on its
+    # own, with nothing else running, before the crash is taken as final
+    import time
+    for job in [j for j, v in res.items() if v[0] == -99]:
+        time.sleep(2)
+        res[job] = compile_tu(job)[1:]
     os.makedirs(common.CACHE_DIR, exist_ok=True)
     if any(v[0] == -99 for v in res.values()):
         _cache[tier] = res
